@@ -6,7 +6,9 @@ FAMILY = 'sched (metamorphic pairs)'
 RULE = ('as C01 (accumulating updaters only, so all updates commute); every composite is run twice, the second time '
         'with independently shuffled insertion orders of the processes dict, the topology dict, the ports of every '
         'process and the ports of every topology entry; the emitted trajectories and the fronts after every call '
-        'must be identical, and the first run must match the model. Non-trivial: >=2 processes and >=2 invocations.')
+        'must be identical, and the first run must match the model. Steps of one dependency layer: the engine stream of C05 '
+        '(random flows; steps that read what other steps of their layer write) with the same-snapshot oracle. '
+        'Non-trivial: >=2 processes and >=2 invocations.')
 ASSUMPTIONS = __import__('harness.c01', fromlist=['x']).ASSUMPTIONS + [
     'timesteps and conditions are functions of the viewed state (not of poll counts), updaters commute',
 ]
@@ -27,6 +29,10 @@ def generate(seed, tier, enlarged=False):
         rng.shuffle(perm)
         c['perm'] = perm
         cases.append(c)
+    # steps of one dependency layer: the engine stream of C05 (random flows, steps reading what other steps of
+    # their layer write), judged here by its same-snapshot oracle
+    from harness import c05
+    cases += [c for c in c05.generate(seed, tier, enlarged) if c['kind'] == 'engine']
     return cases
 
 
@@ -46,6 +52,23 @@ class Shim:
 
 
 def run(cases, tier='quick', seed=0):
+    from harness import c05
+
+    class Layer:
+        __name__ = 'harness.c05'
+        IMPORTS, CHECK_FN, BAD_TERM = c05.IMPORTS, c05.CHECK_FN, c05.BAD_TERM
+        run_impl, render = staticmethod(c05.run_impl), staticmethod(c05.render)
+        nontrivial, stat_key = staticmethod(c05.nontrivial), staticmethod(c05.stat_key)
+
+        @staticmethod
+        def oracle(c, ob, rng):
+            return [(m, sg) for m, sg in c05.oracle(c, ob, rng) if sg == 'layer-snapshot']
+    return common.merge_streams(cases, [
+        (lambda c: c['kind'] == 'sched', lambda cs: run_sched(cs, tier, seed)),
+        (lambda c: c['kind'] == 'engine', lambda cs: common.generic_run(Layer, cs, seed, shard=200))])
+
+
+def run_sched(cases, tier='quick', seed=0):
     mod = __import__('harness.c04', fromlist=['x'])
     twins = {}
 
@@ -94,4 +117,8 @@ def run(cases, tier='quick', seed=0):
     return common.generic_run(M, cases, seed, shard=60)
 
 
-model_output = sched.model_output
+def model_output(case, ob):
+    if case['kind'] == 'engine':
+        from harness import c05
+        return c05.model_output(case, ob)
+    return sched.model_output(case, ob)
